@@ -133,8 +133,6 @@ def build_driver(name, lib, extra_src=(), extra_flags=(), cxx=False, libs=(), re
     srcs = [os.path.join(HARNESS, 'drv', name + ('.cc' if cxx else '.c')), os.path.join(HARNESS, 'rt', 'verif_rt.c')]
     if shim:
         srcs.append(os.path.join(HARNESS, 'rt', 'io_shim.c'))
-    else:
-        srcs.append(os.path.join(HARNESS, 'rt', 'io_noshim.c'))
     srcs += list(extra_src)
     flags = ['-O1', '-g', '-D_GNU_SOURCE', '-DLCDB_VERIF', '-w', '-I' + os.path.join(repo, 'include'), '-I' + os.path.join(repo, 'src'),
              '-I' + os.path.join(HARNESS, 'rt'), '-I' + os.path.join(HARNESS, 'drv')] + list(extra_flags)
